@@ -277,10 +277,20 @@ func c17HTTP() vh.Unit {
 			respBody, _ := json.Marshal(map[string]interface{}{"jsonrpc": "2.0", "id": 1, "result": tok})
 			respBody = append(respBody, '\n')
 			cands := c17Candidates(len(respBody), []int{len(respBody)})
+			// client configurations: with and without a reply size limit (well above the reply);
+			// replies with a declared length and chunked ones (net/http reports -1 for those)
+			type cliCfg struct{ max, declared int64 }
+			cfgs := []cliCfg{{0, -1}, {0, int64(len(respBody))}, {1 << 20, -1}, {1 << 20, int64(len(respBody))}, {int64(len(respBody)), -1}}
+			cfgI := 0
 			c17CutSets(cands, 2, func(cuts []int) bool {
-				svc := &jsonrpc2.HTTPService{Endpoint: "http://mem/"}
+				cfg := cfgs[cfgI%len(cfgs)]
+				cfgI++
+				if len(cuts) == 0 {
+					cfgI = 0 // (the uncut delivery is tried with every configuration below)
+				}
+				svc := &jsonrpc2.HTTPService{Endpoint: "http://mem/", MaxContentLength: cfg.max}
 				svc.HTTPClient.Transport = roundTripFunc(func(r *http.Request) (*http.Response, error) {
-					return &http.Response{StatusCode: 200, Header: http.Header{"Content-Type": {"application/json"}}, ContentLength: -1,
+					return &http.Response{StatusCode: 200, Header: http.Header{"Content-Type": {"application/json"}}, ContentLength: cfg.declared,
 						Body: io.NopCloser(&chunkReader{data: respBody, cuts: append([]int{}, cuts...)}), Request: r}, nil
 				})
 				var got string
@@ -290,11 +300,26 @@ func c17HTTP() vh.Unit {
 				u.R.Transitions++
 				u.R.Traces++
 				if err != nil || got != tok {
-					u.Violate("http/client-response-chunking", fmt.Sprintf("response body (%d bytes) cut at %v: result %q err=%v", len(respBody), cuts, abbreviate(got), err), nil)
+					u.Violate("http/client-response-chunking", fmt.Sprintf("response body (%d bytes, declared length %d, client limit %d) cut at %v: result %q err=%v", len(respBody), cfg.declared, cfg.max, cuts, abbreviate(got), err), nil)
 					return false
 				}
 				return true
 			})
+			for _, cfg := range cfgs {
+				svc := &jsonrpc2.HTTPService{Endpoint: "http://mem/", MaxContentLength: cfg.max}
+				svc.HTTPClient.Transport = roundTripFunc(func(r *http.Request) (*http.Response, error) {
+					return &http.Response{StatusCode: 200, Header: http.Header{"Content-Type": {"application/json"}}, ContentLength: cfg.declared,
+						Body: io.NopCloser(bytes.NewReader(respBody)), Request: r}, nil
+				})
+				var got string
+				err := svc.Call(context.Background(), &got, "echo", tok)
+				u.R.Evaluations++
+				u.R.Traces++
+				u.Observe(fmt.Sprintf("http-client limit=%d declared=%v ok=%v", cfg.max, cfg.declared >= 0, err == nil))
+				if err != nil || got != tok {
+					u.Violate("http/client-response-chunking", fmt.Sprintf("response body (%d bytes, declared length %d, client limit %d) delivered whole: result %q err=%v", len(respBody), cfg.declared, cfg.max, abbreviate(got), err), nil)
+				}
+			}
 		}
 		u.Observe("http")
 		u.Observe("http-client")
